@@ -500,6 +500,39 @@ def dispatch_certificate(parsed):
     return probs
 
 
+def decode_char_lit(x):
+    if x.startswith("\\u{"):
+        return int(x[3:-1], 16)
+    esc = {"\\n": 10, "\\t": 9, "\\r": 13, "\\0": 0, "\\\\": 92, "\\'": 39, '\\"': 34}
+    if x in esc:
+        return esc[x]
+    return ord(x)
+
+
+def tables_certificate(parsed):
+    """every generated search table `static <L>_RANGE_TABLE_n: [(char, char); k]` must be sorted, disjoint and
+    non-inverted: the hypothesis pairs_wf of CharClassProofs.binary_search_in_pairs. Returns problems."""
+    toks = parsed.get("tokens") or ""
+    probs = []
+    n = 0
+    for m in re.finditer(r"static (\w+) ?: ?\[\(char ?, ?char\) ?; ?(\d+)(?:usize)?\] ?= ?\[(.*?)\] ?;", toks):
+        name, cnt, body = m.group(1), int(m.group(2)), m.group(3)
+        pairs = re.findall(r"\('((?:\\.[^']*|[^'\\]))' ?, ?'((?:\\.[^']*|[^'\\]))'\)", body)
+        n += 1
+        if len(pairs) != cnt:
+            probs.append("table %s declares %d entries, %d parsed" % (name, cnt, len(pairs)))
+            continue
+        prev = -1
+        for a, b in pairs:
+            lo, hi = decode_char_lit(a), decode_char_lit(b)
+            if lo > hi or lo <= prev:
+                probs.append("table %s is not sorted/disjoint at (%d, %d) after %d" % (name, lo, hi, prev))
+                break
+            prev = hi
+    parsed["n_tables"] = n
+    return probs
+
+
 def flags_certificate(parsed):
     """flags_sound on a dump: flag(t) whenever an edge s -> t has flag(s) or s accepting; initial
     states unflagged is not required. Also precision (only then). Returns problems."""
@@ -575,6 +608,7 @@ def compare_artifacts(impl, model, stages=None):
         add("dispatch", ["impl: " + p for p in dispatch_certificate(impl)])
         add("dispatch", ["model: " + p for p in dispatch_certificate(model)])
         add("flags", ["impl: " + p for p in flags_certificate(impl)])
+        add("tables", ["impl: " + p for p in tables_certificate(impl)])
     except (KeyError, IndexError, ValueError, TypeError) as e:
         add("dispatch", ["certificate cannot be evaluated: %r" % (e,)])
     return out
